@@ -22,6 +22,7 @@ type MClient struct {
 	// Matchers: Go filter matchers registered on this client\'s native
 	// interpreter: table + "|" + filter text -> constant answer
 	Matchers map[string]bool
+	Panicky  map[string]bool // registered matchers that panic when called
 }
 
 // Model is the whole simulated world.
@@ -46,6 +47,12 @@ func (m *Model) Clone() *Model {
 			nc.Matchers = map[string]bool{}
 			for k, v := range c.Matchers {
 				nc.Matchers[k] = v
+			}
+		}
+		if c.Panicky != nil {
+			nc.Panicky = map[string]bool{}
+			for k, v := range c.Panicky {
+				nc.Panicky[k] = v
 			}
 		}
 		for name, t := range c.Tables {
@@ -354,6 +361,14 @@ func (m *Model) Apply(cmd *Cmd) Expect {
 				c.Matchers = map[string]bool{}
 			}
 			c.Matchers[cmd.T+"|"+FilterText(cmd)] = cmd.Verdict
+			delete(c.Panicky, cmd.T+"|"+FilterText(cmd))
+		}
+		if cmd.Op == "Native" && cmd.Native == "matcher-panic" {
+			if c.Panicky == nil {
+				c.Panicky = map[string]bool{}
+			}
+			c.Panicky[cmd.T+"|"+FilterText(cmd)] = true
+			delete(c.Matchers, cmd.T+"|"+FilterText(cmd))
 		}
 		return Expect{Out: Outcome{Class: "ok"}}
 	case "Transact":
@@ -443,6 +458,13 @@ func (m *Model) Apply(cmd *Cmd) Expect {
 			return Expect{AnyFail: true, MayAccept: true}
 		}
 		filter := cmd.Filter
+		if c.Native && filter != nil && c.Panicky[cmd.T+"|"+FilterText(cmd)] && len(t.Items) > 0 {
+			// a registered Go matcher that panics (user code aborting inside the
+			// call, fault F2): the call aborts, nothing changes, the client survives
+			if cmd.Index == "" || len(t.Select(cmd.Index, nil, nil, nil, false)) > 0 {
+				return Expect{AnyFail: true, MayAccept: true}
+			}
+		}
 		if verdict, ok := c.Matchers[cmd.T+"|"+FilterText(cmd)]; ok && c.Native && filter != nil {
 			// native interpreter active and a Go matcher registered under exactly
 			// this table, kind and text: its answer is what the operation uses
